@@ -17,7 +17,7 @@ PROPS = {
     "C10": P(["recover", "control"]),
     "C11": P(["control", "recover", "pipe", "apply"], panic_owner="C11"),
     "C12": P(["force", "control"], panic_owner="C12"),
-    "C13": P(["reconf"]),
+    "C13": P(["reconf", "apply"]),
     "C14": P(["api"], level="fault_enumeration"),
     "C15": P(["import"], level="fault_enumeration"),
     "C16": P(["apply"]),
